@@ -63,6 +63,15 @@ def build(quiet=True, profile="release"):
         shutil.copyfile(lock_src, os.path.join(mc, "Cargo.lock"))
         with open(stamp, "w") as f:
             f.write(cur)
+    # mc/Cargo.toml is rendered from Cargo.toml.in with the repository path (default /repo; UCG_REPO
+    # lets a background run work on a snapshot of the repository while /repo itself is being edited)
+    tpl = os.path.join(mc, "Cargo.toml.in")
+    if os.path.exists(tpl):
+        want = open(tpl).read().replace("@REPO@", REPO)
+        cur_toml = os.path.join(mc, "Cargo.toml")
+        if not os.path.exists(cur_toml) or open(cur_toml).read() != want:
+            with open(cur_toml, "w") as f:
+                f.write(want)
     env = dict(os.environ)
     env.update({"CARGO_TARGET_DIR": TARGET, "CARGO_NET_OFFLINE": "true", "RUST_BACKTRACE": "0"})
     env.pop("RUSTFLAGS", None)
